@@ -120,7 +120,7 @@ pub(crate) mod __verif {
         add_body(2);
     }
 
-    // @obligation name=ck1_add_one_add_set props=C12 fn=codepointset::CodePointSet::add_one,codepointset::CodePointSet::add_set kind=bounded bound="sets of 1 and 2 symbolic intervals (both size orders, exercising the swap)" min_checks=50 w=3 timeout=1500
+    // @obligation name=ck1_add_one_add_set props=C12:t fn=codepointset::CodePointSet::add_one,codepointset::CodePointSet::add_set kind=bounded bound="sets of 1 and 2 symbolic intervals (both size orders, exercising the swap)" min_checks=50 w=3 timeout=1500
     // add_one(cp) adds exactly cp; add_set is set union whichever operand is larger (it swaps to add into the bigger one).
     #[kani::proof]
     #[kani::unwind(6)]
@@ -235,7 +235,7 @@ pub(crate) mod __verif {
         inverted_body(2);
     }
 
-    // @obligation name=ck1_inverted_len01 props=C12,C03 fn=codepointset::CodePointSet::inverted,codepointset::CodePointSet::inverted_interval_count,codepointset::CodePointSet::contains_all_codepoints kind=bounded bound="sets of 0 and 1 symbolic intervals" min_checks=50 w=2 timeout=900
+    // @obligation name=ck1_inverted_len01 props=C12,C03:t fn=codepointset::CodePointSet::inverted,codepointset::CodePointSet::inverted_interval_count,codepointset::CodePointSet::contains_all_codepoints kind=bounded bound="sets of 0 and 1 symbolic intervals" min_checks=50 w=2 timeout=900
     // The same for the empty set (complement = everything) and 1-interval sets (incl. the full set, whose complement is empty).
     #[kani::proof]
     #[kani::unwind(6)]
